@@ -3,14 +3,18 @@
    Read side: the saltpack adaptors (chunkReader, punctuatedReader) are proved to
    compute a function of the BYTES of their source under every fragmentation of the
    underlying reader (including data delivered together with EOF or another error)
-   and every sequence of caller buffer sizes.  The composed five-layer armored
+   and every sequence of caller buffer sizes; so is the streaming base-X decoder
+   (filteringReader + decoder of encoding/basex/stream.go, model/BxStream.v, compared
+   call by call with basex.NewDecoder): what it delivers is a prefix of the one-shot
+   decoding of the source's bytes, it ends cleanly only when that decoding succeeds and
+   then has delivered all of it, and good input is always decoded completely.  The composed five-layer armored
    stack (with go-codec's reader and the basex decoder) is PARTIAL: it is covered by
    the C13 campaign (16 fragmentations + exhaustive two-cut splits per input), not
    by a theorem.  Write side and buffer bounds are proved for every stream encoder. *)
 From Coq Require Import List NArith ZArith.
 From Coq.Strings Require Import Byte.
 From SP Require Import Bytes Params Crypto Errors BaseX Encodings Chunker Armor Streams Rand Sign Encrypt Signcrypt
-     ChunkerProofs SignProofs EncryptProofs SigncryptProofs StreamProofs.
+     ChunkerProofs SignProofs EncryptProofs SigncryptProofs StreamProofs BxStream BxStreamProofs.
 Import ListNotations.
 
 (* ---------------- write side ---------------- *)
@@ -116,3 +120,66 @@ Example C13_ex_data_with_eof :
   pr_drain [7; 7; 7]%nat (pr_init (mkSource [mkSeg [x61; x2e; x62] (Some EOF)] EOF)) [] []
   = ([[x61]], [x62], Some EOF).
 Proof. vm_compute. reflexivity. Qed.
+
+(* ---------------- the streaming base-X decoder ---------------- *)
+Section BxStreamDecoder.
+Variable e : encoding.
+Hypothesis Hbase_lo : (2 <= BaseX.base e)%N.
+Hypothesis Hbase_hi : (BaseX.base e <= 256)%N.
+Hypothesis Hnodup : NoDup (enc_alphabet e).
+Hypothesis Hibl : (0 < enc_ibl e)%N.
+Hypothesis Hcap : (N.to_nat (BaseX.obl e) <= 8192 * N.to_nat (BaseX.ibl e))%nat.
+Hypothesis Hskip : forall b, BaseX.is_skip e b = true -> BaseX.digit_of e b = None.
+
+(* safety, for every fragmentation of the source and every caller buffer sizes *)
+Theorem C13_bx_stream_delivers_prefix (s : source) (sizes : list nat) :
+  src_wf s -> pos_sizes sizes ->
+  bprefix (fst (bd_drain e sizes (bd_init s) [])) (fst (BaseX.decode e (fst (src_denote s)))).
+Proof. exact (bd_drain_prefix e Hbase_lo Hbase_hi Hnodup Hibl Hcap Hskip s sizes). Qed.
+
+(* a clean end only on good, completely delivered input *)
+Theorem C13_bx_stream_clean_end (s : source) (sizes : list nat) (out : bytes) :
+  src_wf s -> pos_sizes sizes ->
+  bd_drain e sizes (bd_init s) [] = (out, Some EOF) ->
+  snd (src_denote s) = EOF /\ BaseX.decode e (fst (src_denote s)) = (out, None).
+Proof. exact (bd_drain_clean_end e Hbase_lo Hbase_hi Hnodup Hibl Hcap Hskip s sizes out). Qed.
+
+(* good input is decoded completely whatever the fragmentation, given enough Read calls *)
+Theorem C13_bx_stream_complete (s : source) (sizes : list nat) (out : bytes) :
+  src_wf s -> pos_sizes sizes ->
+  snd (src_denote s) = EOF ->
+  BaseX.decode e (fst (src_denote s)) = (out, None) ->
+  (length out + length (fst (src_denote s)) + length (src_segs s) + 3 <= length sizes)%nat ->
+  bd_drain e sizes (bd_init s) [] = (out, Some EOF).
+Proof. exact (bd_drain_complete e Hbase_lo Hbase_hi Hnodup Hibl Hcap Hskip s sizes out). Qed.
+
+(* a failing source never looks like a clean end *)
+Theorem C13_bx_stream_source_error (s : source) (sizes : list nat) (out : bytes) (x : err) :
+  src_wf s -> pos_sizes sizes ->
+  snd (src_denote s) <> EOF ->
+  bd_drain e sizes (bd_init s) [] = (out, Some x) ->
+  x <> EOF.
+Proof. exact (bd_drain_source_error e Hbase_lo Hbase_hi Hnodup Hibl Hcap Hskip s sizes out x). Qed.
+End BxStreamDecoder.
+
+(* the two extra hypotheses hold of the four shipped encodings (the others: C10_shipped_encodings_ok) *)
+Theorem C13_bx_stream_shipped :
+  Forall (fun e => (N.to_nat (BaseX.obl e) <= 8192 * N.to_nat (BaseX.ibl e))%nat /\
+                   forall b, BaseX.is_skip e b = true -> BaseX.digit_of e b = None)
+         [base62; base62_strict; base58; base58_strict].
+Proof.
+  assert (H : forall e, (Nat.leb (N.to_nat (BaseX.obl e)) (8192 * N.to_nat (BaseX.ibl e)) = true) ->
+             (forall b, BaseX.is_skip e b = true -> BaseX.digit_of e b = None) ->
+             (N.to_nat (BaseX.obl e) <= 8192 * N.to_nat (BaseX.ibl e))%nat /\
+             forall b, BaseX.is_skip e b = true -> BaseX.digit_of e b = None).
+  { intros e Hl Hs. split; [apply Nat.leb_le; exact Hl|exact Hs]. }
+  repeat (apply Forall_cons; [apply H; [vm_compute; reflexivity|
+    intros b; destruct b; vm_compute; intro Hs; try reflexivity; discriminate Hs]|]).
+  apply Forall_nil.
+Qed.
+
+Print Assumptions C13_bx_stream_delivers_prefix.
+Print Assumptions C13_bx_stream_clean_end.
+Print Assumptions C13_bx_stream_complete.
+Print Assumptions C13_bx_stream_source_error.
+Print Assumptions C13_bx_stream_shipped.
